@@ -24,9 +24,20 @@ func runC19(c *Check, w *World) {
 		return
 	}
 	// ---- R19.2 recovery wraps routing -----------------------------------------------------------------
-	ns := w.Func(ApiPath, "NewServer")
+	// the server constructor: the service function that fills in the Handler of a fasthttp.Server
+	var ns *ssa.Function
+	for _, f := range w.ModuleFuncs(ApiPath) {
+		f := f
+		EachInstr(f, func(in ssa.Instruction) {
+			if st, ok := in.(*ssa.Store); ok {
+				if fa, ok := st.Addr.(*ssa.FieldAddr); ok && strings.HasSuffix(fa.X.Type().String(), "fasthttp.Server") && fieldName(fa.X.Type(), fa.Field) == "Handler" && ns == nil {
+					ns = f
+				}
+			}
+		})
+	}
 	if ns == nil {
-		c.Fatal("anchor not found: api.NewServer")
+		c.Fatal("anchor not found: no function of the service builds a fasthttp.Server with a Handler")
 		return
 	}
 	var handlerStore, srvStores = (*ssa.Store)(nil), map[string]*ssa.Store{}
@@ -44,18 +55,27 @@ func runC19(c *Check, w *World) {
 		}
 	})
 	nsfn := FuncName(ns)
+	var chainFn, recFn *ssa.Function
 	if handlerStore == nil {
 		c.Bad("R19.2", nsfn, "server-handler", "the server literal has no Handler", w.Pos(ns.Pos()))
 	} else {
 		ht := tb.Of(handlerStore.Val)
 		okWrap, okRoute := false, false
 		var mws []string
-		if ht.Op == "calldyn" && len(ht.Args) == 2 && ht.Args[0].Op == "call" && strings.HasSuffix(ht.Args[0].Sym, "api.Chain") {
+		if ht.Op == "calldyn" && len(ht.Args) == 2 && ht.Args[0].Op == "call" && len(ht.Args[0].Args) == 1 {
+			chainFn = apiFuncNamed(w, ht.Args[0].Sym)
 			okRoute = ht.Args[1].Op == "fn" && ht.Args[1].Sym == FuncName(rf)
 			for _, e := range varargsElems(tb, ht.Args[0].Args[0]) {
 				mws = append(mws, e.Op+":"+e.Sym)
-				if e.Op == "fn" && e.Sym == "api.Recovery" {
-					okWrap = true
+				if e.Op != "fn" {
+					continue
+				}
+				// the recovering middleware is the one that defers a recover()
+				if f := apiFuncNamed(w, e.Sym); f != nil && chainFn != nil {
+					if d, r, _, _ := recoveryShape(w, f); d && r && recFn == nil {
+						recFn = f
+						okWrap = true
+					}
 				}
 			}
 		}
@@ -63,7 +83,7 @@ func runC19(c *Check, w *World) {
 		c.Decide(okRoute, "R19.2", nsfn, "router-served", "the chain ends in the router", "the chain does not end in the router: "+clip(ht.String(), 200), w.InstrPos(handlerStore))
 	}
 	// Chain applies every middleware it is given
-	if ch := w.Func(ApiPath, "Chain"); ch != nil {
+	if ch := chainFn; ch != nil {
 		okChain := false
 		for _, f := range w.ModuleFuncs(ApiPath) {
 			if f.Parent() != ch {
@@ -116,57 +136,14 @@ func runC19(c *Check, w *World) {
 		}
 		c.Decide(okChain, "R19.2", FuncName(ch), "chain-applies-all", "Chain wraps the final handler with each middleware of its list in a loop", "Chain does not apply the middlewares of its list", w.Pos(ch.Pos()))
 	} else {
-		c.Fatal("anchor not found: api.Chain")
+		c.Unk("R19.2", nsfn, "chain-applies-all", "the served handler is not built by a middleware chain of the service", w.Pos(ns.Pos()))
 	}
 	// Recovery: deferred recover() that answers 5xx, then next(ctx)
-	if rec := w.Func(ApiPath, "Recovery"); rec != nil {
-		okDefer, okRecover, okStatus, okNext := false, false, false, false
-		for _, f := range w.ModuleFuncs(ApiPath) {
-			if f.Parent() != rec {
-				continue
-			}
-			EachInstr(f, func(in ssa.Instruction) {
-				switch x := in.(type) {
-				case *ssa.Defer:
-					var df *ssa.Function
-					switch v := x.Call.Value.(type) {
-					case *ssa.MakeClosure:
-						df = v.Fn.(*ssa.Function)
-					case *ssa.Function:
-						df = v
-					}
-					if df == nil {
-						return
-					}
-					okDefer = true
-					EachInstr(df, func(in2 ssa.Instruction) {
-						if cl, ok := in2.(*ssa.Call); ok {
-							n := CalleeName(cl.Common())
-							if n == "builtin.recover" {
-								okRecover = true
-							}
-							if strings.HasSuffix(n, "RequestCtx).SetStatusCode") {
-								if k, ok := constInt(cl.Call.Args[1]); ok && k.Int64() >= 500 && k.Int64() < 600 {
-									// only under r != nil
-									for _, at := range atomsOf(CondsAt(cl.Block())) {
-										if at.Op == token.NEQ && isNilConst(at.Y) {
-											okStatus = true
-										}
-									}
-								}
-							}
-						}
-					})
-				case *ssa.Call:
-					if x.Call.StaticCallee() == nil && !x.Call.IsInvoke() && okDefer {
-						okNext = true
-					}
-				}
-			})
-		}
+	if rec := recFn; rec != nil {
+		okDefer, okRecover, okStatus, okNext := recoveryShape(w, rec)
 		c.Decide(okDefer && okRecover && okStatus && okNext, "R19.2", FuncName(rec), "recovery-shape", "Recovery defers recover(), answers a recovered panic with a 5xx status, then runs the next handler", fmt.Sprintf("Recovery does not have the shape defer{recover → 5xx}; next(ctx) (defer=%v recover=%v 5xx=%v next=%v)", okDefer, okRecover, okStatus, okNext), w.Pos(rec.Pos()))
 	} else {
-		c.Fatal("anchor not found: api.Recovery")
+		c.Bad("R19.2", nsfn, "recovery-shape", "no middleware of the served chain defers a recover(): a panicking handler kills the connection without a response", w.Pos(ns.Pos()))
 	}
 	// ---- R19.3 limits -------------------------------------------------------------------------------------
 	for _, n := range []string{"ReadTimeout", "WriteTimeout", "MaxRequestBodySize"} {
@@ -184,15 +161,48 @@ func runC19(c *Check, w *World) {
 		c.Decide(ok, "R19.3", nsfn, "limit:"+n, n+" is the positive constant "+val, n+" is "+val+": without this limit a slow or huge request occupies a worker indefinitely", w.Pos(ns.Pos()))
 	}
 	// ---- R19.4 statuses ---------------------------------------------------------------------------------------
-	we := w.Func(ApiPath, "writeError")
+	// the error writer: the named service function taking (ctx, status, …) that the handlers call most
+	var we *ssa.Function
+	{
+		calls := map[*ssa.Function]int{}
+		for _, f := range w.ModuleFuncs(ApiPath) {
+			EachInstr(f, func(in ssa.Instruction) {
+				ci, ok := in.(ssa.CallInstruction)
+				if !ok {
+					return
+				}
+				g := ci.Common().StaticCallee()
+				if g == nil || fnPkgPath(g) != ApiPath || g.Parent() != nil || g.Signature.Recv() != nil || len(g.Params) < 2 {
+					return
+				}
+				if !strings.HasSuffix(g.Params[0].Type().String(), "fasthttp.RequestCtx") {
+					return
+				}
+				if bt, isB := g.Params[1].Type().Underlying().(*types.Basic); !isB || bt.Kind() != types.Int {
+					return
+				}
+				calls[g]++
+			})
+		}
+		var cands []*ssa.Function
+		for g := range calls {
+			cands = append(cands, g)
+		}
+		sortFuncs(cands)
+		for _, g := range cands {
+			if we == nil || calls[g] > calls[we] {
+				we = g
+			}
+		}
+	}
 	if we == nil {
-		c.Fatal("anchor not found: api.writeError")
+		c.Fatal("anchor not found: no service function taking (ctx, status, …) is called by the handlers (the error writer)")
 		return
 	}
 	okWE := false
 	EachInstr(we, func(in ssa.Instruction) {
 		if cl, ok := in.(*ssa.Call); ok && strings.HasSuffix(CalleeName(cl.Common()), "RequestCtx).SetStatusCode") {
-			if tb.Of(cl.Call.Args[1]).String() == fmt.Sprintf("param(%s#1)", FuncName(we)) {
+			if p, isP := cl.Call.Args[1].(*ssa.Parameter); isP && p.Parent() == we {
 				okWE = true
 			}
 		}
@@ -376,7 +386,16 @@ func runC19(c *Check, w *World) {
 		x.checkLoops(f, "R19.1")
 	}
 	// the panic-recovery helper walks a fixed 32-entry stack buffer: its loop ends on Frames.Next's "more" flag
-	if cs := w.Func(ApiPath, "captureStackTrace"); cs != nil {
+	var cs *ssa.Function
+	for _, f := range w.ModuleFuncs(ApiPath) {
+		f := f
+		EachInstr(f, func(in ssa.Instruction) {
+			if cl, ok := in.(*ssa.Call); ok && CalleeName(cl.Common()) == "runtime.Callers" && cs == nil {
+				cs = f
+			}
+		})
+	}
+	if cs != nil {
 		fixed := false
 		EachInstr(cs, func(in ssa.Instruction) {
 			if a, ok := in.(*ssa.Alloc); ok && strings.HasPrefix(a.Type().String(), "*[") && strings.HasSuffix(a.Type().String(), "]uintptr") {
@@ -450,4 +469,62 @@ func init() {
 		thorough: []Config{CfgNative, Cfg386},
 		run:      runC19,
 	})
+}
+
+// apiFuncNamed: the service-package function with this FuncName.
+func apiFuncNamed(w *World, name string) *ssa.Function {
+	for _, f := range w.ModuleFuncs(ApiPath) {
+		if FuncName(f) == name || f.String() == name {
+			return f
+		}
+	}
+	return nil
+}
+
+// recoveryShape: does the middleware rec have the shape  defer{ recover() → 5xx under r != nil }; next(ctx) ?
+func recoveryShape(w *World, rec *ssa.Function) (okDefer, okRecover, okStatus, okNext bool) {
+	for _, f := range w.ModuleFuncs(ApiPath) {
+		if f.Parent() != rec {
+			continue
+		}
+		EachInstr(f, func(in ssa.Instruction) {
+			switch x := in.(type) {
+			case *ssa.Defer:
+				var df *ssa.Function
+				switch v := x.Call.Value.(type) {
+				case *ssa.MakeClosure:
+					df = v.Fn.(*ssa.Function)
+				case *ssa.Function:
+					df = v
+				}
+				if df == nil {
+					return
+				}
+				okDefer = true
+				EachInstr(df, func(in2 ssa.Instruction) {
+					if cl, ok := in2.(*ssa.Call); ok {
+						n := CalleeName(cl.Common())
+						if n == "builtin.recover" {
+							okRecover = true
+						}
+						if strings.HasSuffix(n, "RequestCtx).SetStatusCode") {
+							if k, ok := constInt(cl.Call.Args[1]); ok && k.Int64() >= 500 && k.Int64() < 600 {
+								// only under r != nil
+								for _, at := range atomsOf(CondsAt(cl.Block())) {
+									if at.Op == token.NEQ && isNilConst(at.Y) {
+										okStatus = true
+									}
+								}
+							}
+						}
+					}
+				})
+			case *ssa.Call:
+				if x.Call.StaticCallee() == nil && !x.Call.IsInvoke() && okDefer {
+					okNext = true
+				}
+			}
+		})
+	}
+	return
 }
